@@ -448,7 +448,7 @@ def search_for_paths(logger: ConsolePrinter, processor: EYAMLProcessor,
                     yield YAMLPath(tmp_path)
                 continue
 
-            if isinstance(ele, (CommentedSeq, CommentedMap)):
+            if isinstance(ele, (CommentedSeq, CommentedMap, CommentedSet)):
                 logger.debug(
                     "Recursing into complex data:", data=ele,
                     prefix="yaml_paths::search_for_paths<list>:  ",
